@@ -87,17 +87,27 @@ Definition ladder (st : state) (p seq : Z) : outcome :=
   else if mem p (auth_table st) then AuthHandlerCall p   (* auth_handler is None: empty table *)
   else fallback (send_blocked (rekey st)) p seq.
 
+(* the generated `if ptype == MSG_X: ... continue / break` chain at the top of the loop
+   (IGNORE, DISCONNECT, DEBUG in the current source) *)
+Fixpoint prelude_lookup (br : list (Z * bool)) (p : Z) : option bool :=
+  match br with
+  | [] => None
+  | (t, stops) :: r => if p =? t then Some stops else prelude_lookup r p
+  end.
+
 Definition dispatch (st : state) (p seq : Z) : outcome :=
-  if p =? MSG_IGNORE then Skip
-  else if p =? MSG_DISCONNECT then Stop
-  else if p =? MSG_DEBUG then Skip
-  else match expected st with
-       | [] => ladder st p seq
-       | _ :: _ =>
-           if negb (mem p (expected st)) then Die SSHExc
-           else if (30 <=? p) && (p <=? 41) then KexStep
-           else ladder st p seq        (* _expected_packet was reset to () *)
-       end.
+  match prelude_lookup prelude p with
+  | Some true => Stop
+  | Some false => Skip
+  | None =>
+      match expected st with
+      | [] => ladder st p seq
+      | _ :: _ =>
+          if negb (mem p (expected st)) then Die SSHExc
+          else if (KEX_LO <=? p) && (p <=? KEX_HI) then KexStep
+          else ladder st p seq        (* _expected_packet was reset to () *)
+      end
+  end.
 
 (* Packetizer.read_message comes first: an unguarded MSG_NAMES[cmd] there (whatever switch - packet
    hexdump logging, a log level - its code path hangs on) raises KeyError in the transport thread for a
@@ -112,7 +122,7 @@ Definition alive (o : outcome) : bool :=
   match o with Die _ | Stop => false | _ => true end.
 
 (* ---- what "no handler in the current role and state" means (independent of dispatch) ---- *)
-Definition special (p : Z) : bool := (p =? MSG_IGNORE) || (p =? MSG_DISCONNECT) || (p =? MSG_DEBUG).
+Definition special (p : Z) : bool := mem p (map fst prelude).
 
 Definition unhandled (st : state) (p : Z) : bool :=
   negb (special p) && negb (mem p (transport_table st)) && negb (mem p channel_handler_table)
